@@ -5,6 +5,7 @@ import (
 	"fmt"
 	"sort"
 	"strings"
+	"sync"
 	"time"
 
 	"github.com/ipfs/go-cid"
@@ -23,7 +24,7 @@ import (
 func init() {
 	register(stream{
 		name: "token",
-		rule: "envelopes built by the harness itself (go-ipld-prime + libp2p, not go-ucan's envelope code) and offered to token.FromSealed / delegation.FromSealed / invocation.FromSealed and the DAG-JSON equivalents: (fields) every payload field of a valid delegation and invocation × {dropped, null, retyped to each IPLD kind, out-of-range, empty, malformed DID/command/policy/selector/pattern, short nonce} and an added unknown key, each CORRECTLY RE-SIGNED; (envelope) wrong, foreign or missing varsig header, extra SigPayload entry, extra outer element, swapped and unknown tags, signature by another key, truncated/empty/non-bytes signature; (bits) every single-bit flip of a sealed Ed25519 delegation and invocation; (values) every Go integer type at its boundary values through literal.Any (directly and nested), args.Add and meta.Add — stored exactly or rejected; (roundtrip) tokens from the constructors under every option combination × Ed25519/secp256k1/P-256/P-384/P-521 (RSA thorough) × {DAG-CBOR, DAG-JSON} × {generic, typed}. Compared: accept/reject and every decoded field. Non-trivial = all but the unmodified fixtures. Distinct = distinct protocol lines.",
+		rule: "envelopes built by the harness itself (go-ipld-prime + libp2p, not go-ucan's envelope code) and offered to token.FromSealed / delegation.FromSealed / invocation.FromSealed and the DAG-JSON equivalents: (fields) every payload field of a valid delegation and invocation × {dropped, null, retyped to each IPLD kind, out-of-range, empty, malformed DID/command/policy/selector/pattern, short nonce} and an added unknown key, each CORRECTLY RE-SIGNED; (envelope) wrong, foreign or missing varsig header, extra SigPayload entry, extra outer element, swapped and unknown tags, signature by another key, truncated/empty/non-bytes signature, every payload field and the varsig header rewritten while KEEPING THE OLD SIGNATURE (after the genuine token was decoded), header variants with foreign hash/encoding/segments, a genuine and a forged token decoded from 8 goroutines at once; (bits) every single-bit flip of a sealed Ed25519 delegation and invocation; (values) every Go integer type at its boundary values through literal.Any (directly and nested), args.Add and meta.Add — stored exactly or rejected; (roundtrip) tokens from the constructors under every option combination × Ed25519/secp256k1/P-256/P-384/P-521 (RSA thorough) × {DAG-CBOR, DAG-JSON} × {generic, typed}. Compared: accept/reject and every decoded field. Non-trivial = all but the unmodified fixtures. Distinct = distinct protocol lines.",
 		run:  runTokenStream,
 		eval: evalToken,
 		cmp: func(line, g, m string) string {
@@ -305,6 +306,8 @@ func evalToken(line string) (out string, rd string) {
 		}
 	case "go.tok.roundtrip":
 		return tokRoundTrip(f[1], f[2], f[3]), line
+	case "go.tok.concurrent":
+		return tokConcurrent(f[1], f[2]), line
 	case "go.lit.exact":
 		var i int
 		fmt.Sscan(f[1], &i)
@@ -459,6 +462,9 @@ func runTokenStream(c *ctx) error {
 				{"hdr-missing", "m(" + kind.tag + ":" + payloadText(kind.fs) + ")", k.priv, nil, ""},
 				{"sp-extra-entry", "m(68:" + hdr + "," + kind.tag + ":" + payloadText(kind.fs) + "," + hxsRaw("zz") + ":i1)", k.priv, nil, ""},
 				{"sp-two-tags", "m(" + dlgTag + ":" + payloadText(kind.fs) + "," + invTag + ":" + payloadText(kind.fs) + ")", k.priv, nil, ""},
+				{"sp-extra-short-tag", "m(68:" + hdr + "," + hxsRaw("ucan/x") + ":" + payloadText(kind.fs) + "," + kind.tag + ":" + payloadText(kind.fs) + ")", k.priv, nil, ""},
+				{"sp-extra-long-tag", "m(68:" + hdr + "," + kind.tag + ":" + payloadText(kind.fs) + "," + kind.tag + hxsRaw("x") + ":" + payloadText(kind.fs) + ")", k.priv, nil, ""},
+				{"sp-extra-two-headers-like", "m(68:" + hdr + "," + hxsRaw("hh") + ":" + hdr + "," + kind.tag + ":" + payloadText(kind.fs) + ")", k.priv, nil, ""},
 				{"sp-foreign-key", "m(68:" + hdr + "," + hxsRaw("zz") + ":" + payloadText(kind.fs) + ")", k.priv, nil, ""},
 				{"tag-unknown", "m(68:" + hdr + "," + hxsRaw("ucan/xx@1") + ":" + payloadText(kind.fs) + ")", k.priv, nil, ""},
 				{"tag-swapped", "m(68:" + hdr + "," + map[string]string{dlgTag: invTag, invTag: dlgTag}[kind.tag] + ":" + payloadText(kind.fs) + ")", k.priv, nil, ""},
@@ -474,6 +480,34 @@ func runTokenStream(c *ctx) error {
 					c.emitSealed(all, b, "envelope:"+ec.name)
 				}
 			}
+			// rewrites that KEEP THE OLD SIGNATURE (made after the genuine token has been decoded above):
+			// a payload field, or the varsig header, changes while the signature is the one of the original
+			origSP, _ := parseNode(mk(kind.tag, kind.fs))
+			oldSig, _ := k.priv.Sign(nodeBytes(origSP))
+			keepSig := func([]byte) string { return "b" + hxsRaw(string(oldSig)) }
+			for i, f := range kind.fs {
+				for _, nv := range oldSigRewrites(f.k, f.v) {
+					fs := append([]pfield(nil), kind.fs...)
+					fs[i].v = nv
+					if b, err := sealText(mk(kind.tag, fs), k.priv, keepSig, ""); err == nil {
+						c.emitSealed(all, b, "envelope:sig-old-field:"+f.k)
+					}
+				}
+			}
+			h0 := varsigHex[alg]
+			for name, hv := range map[string]string{
+				"dagjson": h0[:len(h0)-2] + "a902", "raw": h0[:len(h0)-2] + "55", "extra-segment": h0 + "71", "dropped-segment": h0[:len(h0)-2],
+				"sha512": strings.Replace(h0, "12", "13", 1), "prefix-only": "34",
+			} {
+				sp := "m(68:b" + hv + "," + kind.tag + ":" + payloadText(kind.fs) + ")"
+				if b, err := sealText(sp, k.priv, keepSig, ""); err == nil {
+					c.emitSealed(all, b, "envelope:hdr-old-sig:"+name)
+				}
+				if b, err := sealText(sp, k.priv, nil, ""); err == nil {
+					c.emitSealed(all, b, "envelope:hdr-resigned:"+name)
+				}
+			}
+			c.emit(fmt.Sprintf("go.tok.concurrent %s %s", map[string]string{dlgTag: "dlg", invTag: "inv"}[kind.tag], alg), "token.envelope:sig-concurrent", true, "concurrent:"+alg)
 			// (bits) every single-bit flip of the honest sealed bytes
 			if alg == "ed25519" {
 				step := 1
@@ -497,15 +531,16 @@ func runTokenStream(c *ctx) error {
 		c.emit(fmt.Sprintf("go.lit.exact %d", i), "literal.exact", true, "literal")
 	}
 	// (roundtrip) constructor-built tokens
-	rtAlgs := []string{"ed25519", "secp256k1", "p256", "p384", "p521"}
-	if c.thoro {
-		rtAlgs = append(rtAlgs, "rsa")
-	}
+	rtAlgs := []string{"ed25519", "secp256k1", "p256", "p384", "p521", "rsa"}
 	masks := 128
 	for _, alg := range rtAlgs {
 		for _, kind := range []string{"dlg", "inv"} {
 			for m := 0; m < masks; m++ {
-				if !c.thoro && (alg != "ed25519" || m >= 64 && m%4 > 1) && m%5 != 0 {
+				if !c.thoro && alg == "rsa" {
+					if m != 7 {
+						continue // did.GenerateRSA keys (3072 bits) are slow: one mask per token type in the quick tier
+					}
+				} else if !c.thoro && (alg != "ed25519" || m >= 64 && m%4 > 1) && m%5 != 0 {
 					continue
 				}
 				c.emit(fmt.Sprintf("go.tok.roundtrip %s %s %d", kind, alg, m), "token.roundtrip:"+alg, true, "roundtrip:"+kind+":"+alg)
@@ -513,6 +548,98 @@ func runTokenStream(c *ctx) error {
 		}
 	}
 	return nil
+}
+
+// oldSigRewrites: values that differ from the signed one (same length where possible, so that byte-level
+// caches keyed by length or position cannot tell them apart)
+func oldSigRewrites(field, orig string) []string {
+	aud := keyFor("ed25519", 7)
+	switch field {
+	case "iss", "aud", "sub":
+		return []string{str(aud.did.String())}
+	case "cmd":
+		return []string{str("/foo/baz"), str("/fox"), str("/")}
+	case "pol":
+		return []string{"l()", strings.Replace(orig, "i1", "i2", 1)}
+	case "nonce":
+		return []string{"b" + hxsRaw("nonce-nonce-X")}
+	case "meta":
+		return []string{"m(" + hxsRaw("k") + ":" + str("w") + ")"}
+	case "nbf", "exp", "iat":
+		return []string{"i1700000001", "i4102444801"}
+	case "args":
+		return []string{"m(" + hxsRaw("a") + ":i2," + hxsRaw("s") + ":" + str("xyz") + ")", "m()"}
+	case "prf":
+		return []string{"l()", "l(k" + hxsRaw(string(independentCid([]byte("p9")).Bytes())) + ")"}
+	case "cause":
+		return []string{"k" + hxsRaw(string(independentCid([]byte("p9")).Bytes()))}
+	}
+	return nil
+}
+
+// tokConcurrent decodes a genuine token and a forged one (a same-length field rewrite carrying the genuine
+// signature) from many goroutines at once: the forged one must never be accepted.
+func tokConcurrent(kind, alg string) string {
+	k := keyFor(alg, 0)
+	ctx0 := &ctx{}
+	dlg, inv, _ := ctx0.tokenFixtures(alg)
+	fs, tag := dlg, hxsRaw("ucan/dlg@1.0.0-rc.1")
+	if kind == "inv" {
+		fs, tag = inv, hxsRaw("ucan/inv@1.0.0-rc.1")
+	}
+	hdr := "b" + varsigHex[alg]
+	mk := func(fs []pfield) string { return "m(68:" + hdr + "," + tag + ":" + payloadText(fs) + ")" }
+	genuine, err := sealText(mk(fs), k.priv, nil, "")
+	if err != nil {
+		return "fixture: " + err.Error()
+	}
+	// deterministic schemes would let us reuse sealText's signature; sign explicitly so both envelopes share it
+	sp, _ := parseNode(mk(fs))
+	sig, _ := k.priv.Sign(nodeBytes(sp))
+	keep := func([]byte) string { return "b" + hxsRaw(string(sig)) }
+	genuine, _ = sealText(mk(fs), k.priv, keep, "")
+	forgedFs := append([]pfield(nil), fs...)
+	for i := range forgedFs {
+		if forgedFs[i].k == "cmd" {
+			forgedFs[i].v = str(map[string]string{"dlg": "/foo/baz", "inv": "/fox"}[kind])
+		}
+	}
+	forged, _ := sealText(mk(forgedFs), k.priv, keep, "")
+	if _, _, err := token.FromSealed(genuine); err != nil {
+		return "genuine token refused: " + err.Error()
+	}
+	var wg sync.WaitGroup
+	bad := make(chan string, 16)
+	for g := 0; g < 8; g++ {
+		wg.Add(1)
+		go func(g int) {
+			defer wg.Done()
+			defer func() {
+				if r := recover(); r != nil {
+					bad <- fmt.Sprint("panic ", r)
+				}
+			}()
+			for r := 0; r < 4000; r++ {
+				if g%2 == 0 {
+					if _, _, err := token.FromSealed(genuine); err != nil {
+						bad <- "genuine token refused under concurrency: " + err.Error()
+						return
+					}
+				} else {
+					if _, _, err := token.FromSealed(forged); err == nil {
+						bad <- "a field rewrite carrying the old signature was accepted while the genuine token was being decoded concurrently"
+						return
+					}
+				}
+			}
+		}(g)
+	}
+	wg.Wait()
+	close(bad)
+	for m := range bad {
+		return m
+	}
+	return "ok"
 }
 
 func specialValues(field string) []string {
@@ -523,13 +650,18 @@ func specialValues(field string) []string {
 		return []string{str(""), str("/"), str("foo"), str("/foo/"), str("/Foo"), str("//"), str("/fÖo"), str("/a//b")}
 	case "pol":
 		return []string{"l()", "l(l())", "l(l(" + str("==") + "," + str("a") + ",i1))", "l(l(" + str("like") + "," + str(".a") + "," + str("a\\") + "))",
-			"l(l(" + str("==") + "," + str(".a") + ",i9007199254740992))", "l(l(" + str("nope") + "," + str(".a") + ",i1))", "l(l(" + str("==") + "," + str(".a[") + ",i1))"}
+			"l(l(" + str("==") + "," + str(".a") + ",i9007199254740992))",
+			"l(l(" + str("==") + "," + str(".a") + ",i1),l(" + str("==") + "," + str(".b") + ",i9007199254740992))",
+			"l(l(" + str("==") + "," + str(".a") + ",l(l(i1),l(i-9007199254740992))))",
+			"l(l(" + str("and") + ",l(l(" + str("==") + "," + str(".a") + ",m(" + hxsRaw("x") + ":l()," + hxsRaw("y") + ":i9007199254740992)))))", "l(l(" + str("nope") + "," + str(".a") + ",i1))", "l(l(" + str("==") + "," + str(".a[") + ",i1))"}
 	case "nonce":
 		return []string{"b", "b" + hxsRaw("12345678901"), "b" + hxsRaw("123456789012"), "b00"}
 	case "nbf", "exp", "iat":
 		return []string{"i0", "i-1", "i9007199254740991", "i9007199254740992", "i-9007199254740991", "i-9007199254740992", "n"}
 	case "args":
-		return []string{"m()", "m(" + hxsRaw("a") + ":i9007199254740992)", "m(" + hxsRaw("a") + ":l(m(" + hxsRaw("b") + ":i-9007199254740992)))", "m(" + hxsRaw("a") + ":i9007199254740991)"}
+		return []string{"m()", "m(" + hxsRaw("a") + ":i9007199254740992)", "m(" + hxsRaw("a") + ":l(m(" + hxsRaw("b") + ":i-9007199254740992)))", "m(" + hxsRaw("a") + ":i9007199254740991)",
+			"m(" + hxsRaw("a") + ":l(l(i1),l(i9007199254740992)))", "m(" + hxsRaw("a") + ":m(" + hxsRaw("x") + ":m()," + hxsRaw("y") + ":i9007199254740992))",
+			"m(" + hxsRaw("a") + ":l()," + hxsRaw("b") + ":i-9007199254740992)"}
 	case "meta":
 		return []string{"m()", "m(" + hxsRaw("a") + ":i9007199254740992)"}
 	case "prf":
